@@ -111,7 +111,11 @@ def detect(name, checks):
     res = {"repo_commit": sh("git -C /repo rev-parse HEAD")[1].strip(), "verif_commit": sh("git -C /verif rev-parse HEAD")[1].strip(), "runs": {}}
     try:
         rc, out = sh(f"git -C /repo apply {d}/patch.diff")
-        assert rc == 0, "patch does not apply to /repo: " + out
+        if rc != 0:
+            # /repo has moved on (fix: commits) since the change was written: fall back to a 3-way merge
+            rc, out = sh(f"git -C /repo apply --3way {d}/patch.diff")
+            res["applied_with_3way"] = True
+        assert rc == 0 and "with conflicts" not in out, "patch does not apply to /repo: " + out
         for c in checks:
             t0 = time.time()
             env = "OKV_OUT_DIR=/verif/target/seeded-out "
@@ -122,7 +126,7 @@ def detect(name, checks):
             res["runs"][c] = {"exit": rc, "violation_lines": viol[:10], "sigs": sigs[:10], "summary": out.strip().splitlines()[-1] if out.strip() else "", "wall_s": round(time.time() - t0, 1)}
             print(c, "exit", rc, "|", len(viol), "VIOLATION lines |", "; ".join(sigs[:4]))
     finally:
-        sh("git -C /repo checkout -- .")
+        sh("git -C /repo reset -q --hard HEAD")
         sh("git -C /repo clean -fdq -e target")
     rc, out = sh("git -C /repo status --porcelain")
     assert out.strip() == "", "/repo not restored:\n" + out
